@@ -379,6 +379,16 @@ impl<'input> Tokenizer<'input> {
             .map(|b| (self.chars.location, b))
     }
 
+    /// Decodes the character whose first byte, `first`, was just returned by `bump` and consumes
+    /// the rest of its bytes so that the tokenizer continues on a character boundary
+    fn skip_char(&mut self, first: u8) -> char {
+        let ch = self.chars.chars.as_str_suffix().restore_char(&[first]);
+        for _ in 1..ch.len_utf8() {
+            self.bump();
+        }
+        ch
+    }
+
     fn skip_to_end(&mut self) {
         while let Some(_) = self.bump() {}
     }
@@ -527,7 +537,7 @@ impl<'input> Tokenizer<'input> {
             Some((_, b't')) => Ok(b'\t'),
             // TODO: Unicode escape codes
             Some((end, b)) => {
-                let ch = self.chars.chars.as_str_suffix().restore_char(&[b]);
+                let ch = self.skip_char(b);
                 self.recover(start, end, UnexpectedEscapeCode(ch), b)
                     .map(|s| s.value)
             }
@@ -627,25 +637,22 @@ impl<'input> Tokenizer<'input> {
 
     fn char_literal(&mut self, start: Location) -> Result<SpannedToken<'input>, SpError> {
         let ch = match self.bump() {
-            Some((start, b'\\')) => self.escape_code(start)?,
+            Some((start, b'\\')) => self.escape_code(start)? as char,
             Some((end, b'\'')) => {
                 return self.recover(start, end, EmptyCharLiteral, Token::CharLiteral('\0'));
             }
-            Some((_, ch)) => ch,
+            Some((_, ch)) => self.skip_char(ch),
             None => return self.eof_recover(Token::CharLiteral('\0')),
         };
 
         match self.bump() {
-            Some((_, b'\'')) => {
-                let ch = self.chars.chars.as_str_suffix().restore_char(&[ch]);
-                Ok(pos::spanned2(
-                    start,
-                    self.next_loc(),
-                    Token::CharLiteral(ch),
-                ))
-            }
-            Some((end, _)) => {
-                let ch = self.chars.chars.as_str_suffix().restore_char(&[ch]);
+            Some((_, b'\'')) => Ok(pos::spanned2(
+                start,
+                self.next_loc(),
+                Token::CharLiteral(ch),
+            )),
+            Some((end, b)) => {
+                self.skip_char(b);
                 self.recover(start, end, UnterminatedCharLiteral, Token::CharLiteral(ch))
             } // UnexpectedEscapeCode?
             None => self.eof_recover(Token::CharLiteral('\0')),
@@ -835,7 +842,7 @@ impl<'input> Iterator for Tokenizer<'input> {
                 ch if (ch as char).is_whitespace() => continue, // TODO Unicode whitespace
 
                 ch => {
-                    let ch = self.chars.chars.as_str_suffix().restore_char(&[ch]);
+                    let ch = self.skip_char(ch);
                     let end = self.next_loc();
                     if let Err(err) = self.recover(start, end, UnexpectedChar(ch), ()) {
                         return Some(Err(err));
